@@ -90,6 +90,8 @@ type guardState struct {
 	// resolve, when set (path enumeration), maps a boolean local to the facts of its current symbolic value
 	resolve func(id *ast.Ident, pol bool) ([]string, bool)
 	prog    *Program // for looking through boolean predicate helpers (may be nil)
+	// ifAlias: `if x := <path>; cond(x)` - x is a snapshot of <path> taken immediately before the test
+	ifAlias map[*types.Var]ast.Expr
 }
 
 func mayReturn(info *types.Info) func(*ast.CallExpr) bool {
@@ -165,6 +167,22 @@ func (gs *guardState) prepare() {
 			for _, c := range n.Body.List {
 				gs.caseOf[c.(*ast.CaseClause)] = n
 			}
+		case *ast.IfStmt:
+			// if x := <selector path>; ... : x names the value of the path at the moment of the test
+			if as, ok := n.Init.(*ast.AssignStmt); ok && as.Tok == token.DEFINE && len(as.Lhs) == 1 && len(as.Rhs) == 1 {
+				if id, ok := as.Lhs[0].(*ast.Ident); ok {
+					if _, isPath := selectorPath(gs.info, as.Rhs[0]); isPath {
+						if _, isCall := unparen(as.Rhs[0]).(*ast.CallExpr); !isCall {
+							if v, ok := gs.info.Defs[id].(*types.Var); ok {
+								if gs.ifAlias == nil {
+									gs.ifAlias = map[*types.Var]ast.Expr{}
+								}
+								gs.ifAlias[v] = as.Rhs[0]
+							}
+						}
+					}
+				}
+			}
 		case *ast.AssignStmt:
 			for i, l := range n.Lhs {
 				if id, ok := l.(*ast.Ident); ok {
@@ -215,6 +233,33 @@ func (gs *guardState) prepare() {
 			}
 		}
 	}
+}
+
+// assignedOnce: v has no assignment besides its defining if-init (checked lazily over the function body).
+func assignedOnce(gs *guardState, v *types.Var) bool {
+	n := 0
+	ast.Inspect(gs.f.Body, func(x ast.Node) bool {
+		switch a := x.(type) {
+		case *ast.AssignStmt:
+			for _, l := range a.Lhs {
+				if id, ok := l.(*ast.Ident); ok && (gs.info.Defs[id] == v || gs.info.Uses[id] == v) {
+					n++
+				}
+			}
+		case *ast.IncDecStmt:
+			if id, ok := a.X.(*ast.Ident); ok && gs.info.Uses[id] == v {
+				n += 2
+			}
+		case *ast.UnaryExpr:
+			if a.Op == token.AND {
+				if id, ok := a.X.(*ast.Ident); ok && gs.info.Uses[id] == v {
+					n += 2
+				}
+			}
+		}
+		return true
+	})
+	return n == 1
 }
 
 // ---- condition decomposition ----
@@ -351,6 +396,18 @@ func (gs *guardState) condFacts(cond ast.Expr, pol bool, depth int) []string {
 					add(fNil(canon(gs.info, x)), x)
 				} else {
 					add(fNonNil(canon(gs.info, x)), x)
+				}
+				// the tested identifier is the if-init snapshot of a path: the fact holds for the path too
+				if id, ok := unparen(x).(*ast.Ident); ok && gs.ifAlias != nil {
+					if v, ok := gs.info.Uses[id].(*types.Var); ok {
+						if src, ok := gs.ifAlias[v]; ok && assignedOnce(gs, v) {
+							if eq {
+								add(fNil(canon(gs.info, src)), src)
+							} else {
+								add(fNonNil(canon(gs.info, src)), src)
+							}
+						}
+					}
 				}
 				return out
 			}
